@@ -200,6 +200,12 @@ DROPPED_IS_VIOLATION = {'C15': lambda cn, c: not c['std'], 'C08': lambda cn, c: 
 
 def run_C16(rep, g):
     rules.check_messages(rep, g)
+    # "the same text is what serde and FromStr errors embed": the error a conversion reports for an input is the
+    # constructor's error for that input (same variant), never one the conversion makes up on its own
+    if g.has_validation() and not g.d.get('custom'):
+        rules.check_conversions(rep, g, fallible_only=True)
+        rules.check_from_str(rep, g)
+        rules.check_deserialize(rep, g)
 
 
 def run_C05(rep, g):
@@ -240,7 +246,8 @@ def grid_witnesses(tier='quick'):
     from . import grid
     return grid.build(tier)
 
-W_PROPS = {'C05': witcat.c05_witnesses, 'C07': witcat.c07_witnesses, 'C12': witcat.c12_witnesses, 'C15': witcat.c15_witnesses, 'C02': witcat.c02_witnesses, 'C08': grid_witnesses}
+W_PROPS = {'C05': witcat.c05_witnesses, 'C07': witcat.c07_witnesses, 'C12': witcat.c12_witnesses, 'C15': witcat.c15_witnesses, 'C02': witcat.c02_witnesses, 'C08': grid_witnesses,
+           'C10': witcat.c10_witnesses, 'C04': witcat.c10_witnesses}
 
 E_PROPS = {
     'C01': run_C01,
